@@ -726,7 +726,7 @@ class Compiler:
 
         elif isinstance(node, BreakStatement):
             if not self.loop_stack:
-                raise SyntaxError("'break' outside of loop")
+                raise JSSyntaxError("'break' outside of loop")
 
             # Find the right loop context (labeled or innermost loop/switch)
             target_label = node.label.name if node.label else None
@@ -747,9 +747,9 @@ class Compiler:
 
             if ctx is None:
                 if target_label:
-                    raise SyntaxError(f"label '{target_label}' not found")
+                    raise JSSyntaxError(f"label '{target_label}' not found")
                 else:
-                    raise SyntaxError("'break' outside of loop")
+                    raise JSSyntaxError("'break' outside of loop")
 
             # Emit pending finally blocks before the break
             self._emit_pending_finally_blocks(ctx)
@@ -760,7 +760,7 @@ class Compiler:
 
         elif isinstance(node, ContinueStatement):
             if not self.loop_stack:
-                raise SyntaxError("'continue' outside of loop")
+                raise JSSyntaxError("'continue' outside of loop")
 
             # Find the right loop context (labeled or innermost loop, not switch)
             target_label = node.label.name if node.label else None
@@ -774,7 +774,7 @@ class Compiler:
                     break
 
             if ctx is None:
-                raise SyntaxError(f"label '{target_label}' not found")
+                raise JSSyntaxError(f"label '{target_label}' not found")
 
             # Emit pending finally blocks before the continue
             self._emit_pending_finally_blocks(ctx)
